@@ -339,6 +339,16 @@ pub fn gen80(tier: &str, r: &mut Rng, emit: &mut dyn FnMut(Vec<u64>)) {
         steps.extend(t[at..].iter().cloned());
         emit(write_case(1152, 0, &steps));
     } }
+    // a slow client (mode 4: the handler forgets after one second; 200 ms between requests): a transfer that lasts longer
+    // than the expiry in all is still served from the cache, because every request renews its entry
+    for szx in [0u8, 1] {
+        let rp = Reply { code: 0x45, opts: vec![(12, vec![vec![42]])], body: r.bytes((16usize << szx) * 7 + 5) };
+        let mut first = ReqSpec::get(&["res", "slow"]); first.token = vec![4, szx]; first.mid = 700; first.b2 = Some(bv(0, false, szx));
+        let t = play_block2(1152, &first, 7, &rp, None, 1);
+        let mut steps: Vec<Step> = Vec::new();
+        for (i, st) in t.iter().enumerate() { if i > 0 { steps.push(Step::Nap); steps.push(Step::Nap); } steps.push(st.clone()); }
+        emit(write_case(1152, 4, &steps));
+    }
     // two transfers in a row on the same resource and endpoint (the second without / with early negotiation):
     // nothing of the first may leak into the second
     for _ in 0..(if thorough { 1000 } else { 200 }) {
@@ -805,13 +815,15 @@ pub fn gen120(tier: &str, r: &mut Rng, emit: &mut dyn FnMut(Vec<u64>)) {
             if ta.len() < 3 { continue; }
             let mut b = ReqSpec::get(&bpath[..]); b.code = *bcode; b.token = vec![2]; b.mid = 900;
             let tb = upload_steps(1, &b, *bsrc, &r.bytes(16 * 2 + 1), 0, &|_| 1, None, &Reply { code: 0x44, opts: vec![], body: vec![2] });
-            let half = if long_pause { 6 } else { 3 };   // 1200 ms or 600 ms in all
+            // 1200 ms or 400 ms in all: a sleep never returns early, so the long pause is always longer than the second;
+            // the short one would have to overshoot by 600 ms to reach it.  The bystander's own exchanges are adjacent.
+            let half = if long_pause { 6 } else { 2 };
             let mut steps: Vec<Step> = ta[..2].to_vec();
             for _ in 0..half { steps.push(Step::Nap); }
             steps.push(tb[0].clone());
+            steps.push(tb[1].clone());
             for _ in 0..half { steps.push(Step::Nap); }
             steps.push(ta[2].clone());
-            steps.push(tb[1].clone());
             emit(write_case(16 + 60, 4, &steps));
         } }
     }
